@@ -415,6 +415,7 @@ def run_case(case):
         f = case['scope']['fault']
         ext = f['kind'] == 'extref'
         probs = scope_leak_problems(case['scope']['base'], f, K, how='which is not of the form #id' if ext else
+                                    'defined, but as something else than what is referenced,' if f.get('wrongkind') else
                                     'defined only in another scope')
         cl = 'foreign-reference' if ext else 'scope-leak'
         return {'obs': [], 'fails': [{'signature': 'C07:%s:%s' % (cl, F.site_label(f)), 'clause': cl, 'what': w}
